@@ -92,7 +92,8 @@ Proof.
       destruct (raw_mod_ok e1) eqn:R; rewrite ?xeval_wrap; cbn [xeval c_binop]; rewrite IHe1, IHe2; auto; cbn [ceval].
       * apply rem_floor_nonneg; auto. eapply raw_mod_ok_sound; eauto.
       * apply exo_floor_mod_correct; auto.
-  - simpl in Hwf. destruct HF as (HF1 & _). cbn [comp_cir xeval ceval]. rewrite IHe; auto.
+  - simpl in Hwf. destruct HF as (HF1 & _). cbn [comp_cir]. cbv zeta. cbn [xeval ceval].
+    destruct (starts_minus (comp_cir e usub_prec)); cbn [xeval]; rewrite IHe; auto.
 Qed.
 
 (** [emit] = comp_cir (simplify_cir e) at precedence 0, as every index expression is emitted *)
